@@ -102,6 +102,17 @@ pub struct Field {
     /// Option<E> written as 1: `core::option::Option<E>`, 2: `::core::option::Option<E>`
     #[serde(default)]
     pub opt_path: u8,
+    /// adversarial literal: one number of the attribute is written as this (up to u64::MAX) instead of
+    /// the value held in the model; only used for declarations that are invalid by R4
+    #[serde(default)]
+    pub huge: Option<Huge>,
+}
+
+#[derive(Clone, Debug, Serialize, Deserialize, PartialEq, Eq, Hash)]
+pub struct Huge {
+    /// "stride" or "hi0" (upper bound of the first listed range)
+    pub part: String,
+    pub value: u64,
 }
 
 #[derive(Clone, Debug, Serialize, Deserialize, PartialEq, Eq, Hash)]
